@@ -52,6 +52,10 @@ given, so a parsed Database is never shared).
     by ~1e-6 (measured; history dependence of the backend is C09's subject) - those cached pairs are run in the
     thorough tier and only recorded (worst 'observed_only_cached_*'), never asserted.
       c11.phase.steps       same number of steps (same logical cap)
+      c11.phase.grid_extension   the same comparison, counted for the grid-extending Cu-Ti pairs (size-class grid ending at
+                            1.2..1.6 nm) in which EVERY phase appended size classes (addSizeClasses, counted per phase through
+                            the instance wrappers of vlib.precip_run.GridEvents: observed grid_appends_*); a grid-extending pair
+                            is non-trivial only then, and a run without such a pair is inconclusive
       c11.phase.time_grid   same time grid      } compared step by step; the first diverging step index is reported
       c11.phase.histories   all 16 histories equal after permuting the phase axis (one evaluation per history; a diverging
                             pair is reported once, for the history that separates first; mech carries the step-size rules
@@ -97,7 +101,7 @@ RULE = ('element order: systems {Ni-Cr-Al mobility, Ni-Cr-Al diffusivity, Fe-Cr-
 REQUIRED_MONITORS = ['c11.elem.driving_force', 'c11.elem.interdiffusivity', 'c11.elem.tracer', 'c11.elem.growth', 'c11.elem.curvature',
                      'c11.elem.impingement', 'c11.elem.local_eq', 'c11.elem.interfacial', 'c11.elem.mobility',
                      'c11.elem.diffusion_profile', 'c11.elem.diffusion_time',
-                     'c11.phase.steps', 'c11.phase.time_grid', 'c11.phase.histories',
+                     'c11.phase.steps', 'c11.phase.time_grid', 'c11.phase.histories', 'c11.phase.grid_extension',
                      'c11.rule.psd', 'c11.rule.nucleation', 'c11.rule.temperature', 'c11.rule.rcrit', 'c11.rule.volume',
                      'c11.rule.getdt', 'c11.sites']
 REACH = ['thermo/Thermodynamics.py:GeneralThermodynamics._getDrivingForceTangent',
@@ -610,6 +614,11 @@ def _cuti_cfg(rng, tier, k):
         cfg['pbm'] = {'cMin': 1e-10, 'cMax': 1e-8, 'bins': 36, 'minBins': 25, 'maxBins': 60, 'adaptive': True}   # table rebuilds are costly
     else:
         scheds = [{'kind': 'iso', 'T': T} for T in (T0, 623.15, 640.0)]
+    if mode == 0 or (mode == 1 and tier != 'quick'):
+        # grid-extending pair: the size-class grid ends at 1.2..1.6 nm so that both phases grow into their last class early and classes are
+        # APPENDED (PopulationBalanceModel.addSizeClasses: +10 classes up to maxBins, then a full re-mesh back to minBins)
+        cfg['pbm'] = {'cMin': 1e-10, 'cMax': float(rng.uniform(1.2e-9, 1.6e-9)), 'bins': 40, 'minBins': 30, 'maxBins': 80, 'adaptive': True}
+        cfg['grid_extending'] = True
     cfg['schedule_candidates'] = scheds
     cfg['schedule'] = scheds[0]
     cfg['T_candidates'] = []
@@ -624,7 +633,9 @@ def _cuti_cfg(rng, tier, k):
         cfg['parents'] = {'CU4TI': ['CU3TI2']}
     cfg['bulkN0'] = float(10 ** rng.uniform(29, 30))
     cfg['removeCache'] = True
-    ms = {0: 250, 1: 120, 2: 150}[mode] if tier == 'quick' else {0: 600, 1: 250, 2: 300}[mode]
+    # grid-extending pairs run long enough after the first appends (step ~100-140) for the appended classes to fill: a seeded wrong
+    # Gibbs-Thomson term in appended classes moved the histories by only 2e-8 after 250 steps but by 4e-2 after 400
+    ms = {0: 400, 1: 120, 2: 150}[mode] if tier == 'quick' else {0: 600, 1: 350, 2: 300}[mode]
     cfg['max_steps'] = int(ms)
     return cfg
 
@@ -715,6 +726,8 @@ class _PhaseRunMonitor:
         self.binding = {}
         self.nt = {}
         self.failed_at = {}        # rule -> first pData.n at which the in-run permutation oracle of that rule failed
+        self.grid = {}             # (phase name, public grid operation) -> number of calls (wrappers of vlib.precip_run.GridEvents)
+        self.first_append = {}     # phase name -> step of its first addSizeClasses
 
     def on_build(self, run, model):
         if self.cfg.get('removeCache', True):
@@ -722,6 +735,12 @@ class _PhaseRunMonitor:
         # cfg['parents'] (by phase name) is applied by vlib.precip.build_model
 
     def on_step(self, run, model, c):
+        for j, evs in enumerate(c.get('grid_events') or []):
+            for e in evs:
+                name = str(model.phases[j])
+                self.grid[(name, e['op'])] = self.grid.get((name, e['op']), 0) + 1
+                if e['op'] == 'addSizeClasses':
+                    self.first_append.setdefault(name, int(c['step']))
         if not self.in_run:
             return
         n = int(model.pData.n)
@@ -816,6 +835,13 @@ def _run_precip(case, R):
     R.info.update({'system': cfg['system'], 'schedule': cfg['schedule'], 'phases': cfg['phases'], 'active': active, 'steps': len(A['time']) - 1, 'capped': runA.capped,
                    'constraints': cfg['constraints'], 'binding_rule_steps': monA.binding, 'in_run_nontrivial_steps': monA.nt,
                    'max_density': [float(np.max(A['precipitateDensity'][:, j])) for j in range(P)]})
+    appends = {p: monA.grid.get((p, 'addSizeClasses'), 0) for p in cfg['phases']}
+    remesh = {p: monA.grid.get((p, 'changeSizeClasses'), 0) for p in cfg['phases']}
+    R.info.update({'grid_appends': appends, 'grid_remeshes': remesh, 'first_append_step': monA.first_append})
+    for j, p in enumerate(cfg['phases']):
+        R.observe('grid_appends_%s_listed_phase' % ('first' if j == 0 else 'later'), appends[p])
+        R.observe('grid_remeshes', remesh[p])
+    both_appended = all(v >= 1 for v in appends.values())
     R.info['temperature_span'] = float(np.max(A['temperature']) - np.min(A['temperature']))
     if R.info['temperature_span'] > 1.0:
         R.observe('nonisothermal_pairs_with_more_than_1K')
@@ -870,7 +896,17 @@ def _run_precip(case, R):
             f, k = div[0]
             R.check('c11.phase.histories', False, dict(mech0, history=k), diverging_histories=[(kk, ff) for ff, kk in div],
                     **det_common, **at_step(k, f))
-        R.add_nontrivial('p-%d-%d-%s' % (case['seed'], case['k'], ''.join(str(j) for j in order)))
+        if cfg.get('grid_extending'):
+            # non-trivial for this class only if EVERY phase appended size classes in the base run (then the phase listed second does
+            # so in either order); the comparison is then also counted for the deciding monitor of the grid-extension clause
+            if both_appended:
+                R.check('c11.phase.grid_extension', not div and ft is None and steps_ok, dict(mech0, clause='histories_with_appended_size_classes'),
+                        appends=appends, first_append_step=monA.first_append, **det_common)
+                R.add_nontrivial('p-%d-%d-%s' % (case['seed'], case['k'], ''.join(str(j) for j in order)))
+            else:
+                R.observe('grid_extending_pair_without_appends_of_every_phase')
+        else:
+            R.add_nontrivial('p-%d-%d-%s' % (case['seed'], case['k'], ''.join(str(j) for j in order)))
     R.observe('phase_order_pairs', npairs)
     R.set_nontrivial(False)
 
